@@ -7,14 +7,19 @@ import (
 
 func evalRange(node *ast.RangeLiteral, env *object.Env) object.PanObject {
 	// NOTE: *ast.RangeLiteral has nil (not NilLiteral) if nothing is set
-	return object.NewPanRange(
-		evalOrNil(node.Start, env),
-		evalOrNil(node.Stop, env),
-		evalOrNil(node.Step, env),
-	)
+	bounds := []object.PanObject{}
+	for _, n := range []ast.Expr{node.Start, node.Stop, node.Step} {
+		bound := evalOrNil(n, env)
+		if err, ok := bound.(*object.PanErr); ok {
+			return appendStackTrace(err, node.Source())
+		}
+		bounds = append(bounds, bound)
+	}
+
+	return object.NewPanRange(bounds[0], bounds[1], bounds[2])
 }
 
-func evalOrNil(node ast.Node, env *object.Env) object.PanObject {
+func evalOrNil(node ast.Expr, env *object.Env) object.PanObject {
 	if node == nil {
 		return object.BuiltInNil
 	}
